@@ -308,7 +308,19 @@ func (s *sim) applyByz(op simcore.Op) bool {
 		block, _ := st.MakeBlock(h, txs, commit, nil, b.addr)
 		mut := op.Str("mut")
 		if mut != "" {
-			if !mutateBlock(block, mut, st, op.Int("salt")) {
+			held := func(addr types.Address, msg []byte) []byte {
+				for _, bb := range s.byz {
+					if string(bb.addr) == string(addr) {
+						sg, err := bb.key.Sign(msg)
+						if err != nil {
+							panic(err)
+						}
+						return sg
+					}
+				}
+				return nil
+			}
+			if !mutateBlock(block, mut, st, op.Int("salt"), s.chainID, held) {
 				mut = ""
 			}
 		}
